@@ -18,7 +18,7 @@ ASSUMPTIONS = [
 
 
 def plan(tier):
-    return {"n_random": 1500 if tier == "quick" else 30000, "time_s": 500 if tier == "quick" else 1750}
+    return {"n_random": 6000 if tier == "quick" else 40000, "time_s": 500 if tier == "quick" else 1750}
 
 
 def strategy(tier):
